@@ -245,6 +245,7 @@ class Program:
                     tree = ast.parse(src, filename=path)
                 except SyntaxError as e:
                     raise AnalysisError(f"syntax error in {rel}: {e}")
+                _canonicalise(tree)
                 is_test = "tests" in parts
                 self.modules[name] = Module(name, path, rel, tree, src, is_test, is_pkg)
         self.digest = h.hexdigest()
@@ -802,6 +803,39 @@ class Program:
 
 
 _IN_PROGRESS = object()
+
+
+def _canonicalise(tree: ast.Module) -> None:
+    """Semantics-preserving normal form applied to every parsed module, so that the rules need not know both spellings:
+       `tmp = E; return tmp` (tmp used nowhere else in the function)  ->  `return E`."""
+    for fn in [n for n in ast.walk(tree) if isinstance(n, (ast.FunctionDef, ast.AsyncFunctionDef))]:
+        counts: Dict[str, int] = {}
+        for n in ast.walk(fn):
+            if isinstance(n, ast.Name):
+                counts[n.id] = counts.get(n.id, 0) + 1
+        assigned: Dict[str, int] = {}
+        for n in ast.walk(fn):
+            if isinstance(n, ast.Name) and isinstance(n.ctx, ast.Store):
+                assigned[n.id] = assigned.get(n.id, 0) + 1
+        for holder in ast.walk(fn):
+            for fld in ("body", "orelse", "finalbody"):
+                body = getattr(holder, fld, None)
+                if not (isinstance(body, list) and body and isinstance(body[0], ast.stmt)):
+                    continue
+                i = 0
+                while i + 1 < len(body):
+                    a, r = body[i], body[i + 1]
+                    if (isinstance(a, ast.Assign) and len(a.targets) == 1 and isinstance(a.targets[0], ast.Name) and isinstance(r, ast.Return)
+                            and isinstance(r.value, ast.Name) and r.value.id == a.targets[0].id):
+                        t = a.targets[0].id
+                        # every occurrence of the temporary is one of these store/load pairs
+                        if counts.get(t, 0) == 2 * assigned.get(t, 0):
+                            new = ast.Return(value=a.value)
+                            ast.copy_location(new, a)
+                            new.end_lineno = getattr(r, "end_lineno", None)
+                            body[i:i + 2] = [new]
+                            continue
+                    i += 1
 
 
 # ---------------------------------------------------------------------------
